@@ -65,7 +65,8 @@ theorem sim_api (hs : Sim home ehome c s) (op : Op)
           discEvents t.2) :
     Sim home ehome (step (c.on hv.id f).1 .drain).1 t.1 ∧
     (∀ sid, seenBy sid ((c.on hv.id f).2 ++ (step (c.on hv.id f).1 .drain).2) = seenBy sid t.2) ∧
-    discEvents ((c.on hv.id f).2 ++ (step (c.on hv.id f).1 .drain).2) = discEvents t.2 := by
+    discEvents ((c.on hv.id f).2 ++ (step (c.on hv.id f).1 .drain).2) = discEvents t.2 ∧
+    (step (c.on hv.id f).1 .drain).1.hosts.map Host.id = c.hosts.map Host.id := by
   obtain ⟨e1, e2, e3, e4, e5, e6⟩ :=
     on_then_drain c hv hin f hf hs.ids hs.hinv hs.pending hs.chanOk
   have hviews : (step (c.on hv.id f).1 .drain).1.views =
@@ -75,7 +76,7 @@ theorem sim_api (hs : Sim home ehome c s) (op : Op)
     intro h hh
     rw [hrooms h hh]
   obtain ⟨p1, p2⟩ := local_preserves hs.placed hs.union hs.sinv op hop
-  refine ⟨⟨?_, ?_, ?_, e2, e3, ?_, ?_⟩, ?_, ?_⟩
+  refine ⟨⟨?_, ?_, ?_, e2, e3, ?_, ?_⟩, ?_, ?_, ?_⟩
   · rw [hviews]; exact p1
   · rw [hsingle]; exact inv_singleRooms hs.sinv op
   · rw [hviews, hsingle]; exact p2
@@ -83,6 +84,7 @@ theorem sim_api (hs : Sim home ehome c s) (op : Op)
   · rw [e4]; exact hs.woRooms
   · intro sid; rw [e5 sid]; exact hseen sid
   · rw [e6]; exact hdisc
+  · rw [← views_fst, hviews, map_fst_local, views_fst]
 
 theorem singleEnter_rooms (h : Host) (ns : Ns) (sid : Sid) (room : Room) :
     (singleEnter h ns sid room).h.rooms = enterLocal h.rooms ns sid room := by
